@@ -194,6 +194,61 @@ func (g *group) bulk(leader int, from, n int) {
 	}
 }
 
+// transfer moves the raft leadership from member `from` to member `to` (RaftNode.TransferLeadership, as the master
+// rotation does) and waits until `to` leads; cur is updated
+func (g *group) transfer(from, to int) bool {
+	if err := g.ms[from].node.TransferLeadership(uint64(to + 1)); err != nil {
+		return false
+	}
+	return waitFor(10*time.Second, func() bool { return g.leader(200*time.Millisecond) == to })
+}
+
+// firstOutage: the victim is down for a short while (one decision round of the leader sees it: the tolerance period
+// starts), comes back and catches up; the group is healthy for a long time (two hours of wall clock, tolerate time one
+// hour). "stale": the leader of the first outage loses the leadership before the group is healthy again.
+func (g *group) firstOutage(c *GroupCase, l, v, h int, acked map[int64]int64) bool {
+	for _, i := range []int{l, h} {
+		g.ms[i].node.SnapShotter.RaftFlushC <- true // a snapshot index exists
+	}
+	time.Sleep(200 * time.Millisecond)
+	g.kill(v)
+	g.ms[l].node.VerifDeleteEntryLog()
+	c.Note = append(c.Note, fmt.Sprintf("first outage: tolerance period running on the leader: %v", g.ms[l].node.VerifTolerateStart() != 0))
+	old := l
+	if c.Forced == "stale" {
+		if !g.transfer(l, h) {
+			c.Note = append(c.Note, "leadership transfer failed")
+			c.Scenario = "not-run"
+			return false
+		}
+		g.ms[old].node.VerifDeleteEntryLog() // a round of the old leader as a follower
+	}
+	g.start(v)
+	lead := g.leader(10 * time.Second)
+	if lead < 0 {
+		c.Note = append(c.Note, "no leader after the first outage")
+		c.Scenario = "not-run"
+		return false
+	}
+	if err := g.write(lead, 9, 19, 10*time.Second); err != nil {
+		c.Note = append(c.Note, "write after the first outage failed: "+err.Error())
+		c.Scenario = "not-run"
+		return false
+	}
+	acked[9] = 19
+	waitFor(10*time.Second, func() bool { lww, _ := g.ms[v].st.snapshot(); return lww[9] == 19 })
+	// healthy rounds on every member (only the leader acts), then a long quiet time
+	for _, m := range g.ms {
+		m.node.VerifDeleteEntryLog()
+	}
+	time.Sleep(300 * time.Millisecond)
+	for _, m := range g.ms {
+		m.node.VerifAgeTolerateTimer(2 * time.Hour)
+	}
+	c.Note = append(c.Note, fmt.Sprintf("after the healthy period: tolerance period still running on the first leader: %v", g.ms[old].node.VerifTolerateStart() != 0))
+	return true
+}
+
 func waitFor(d time.Duration, f func() bool) bool {
 	end := time.Now().Add(d)
 	for time.Now().Before(end) {
@@ -223,6 +278,10 @@ func runGroupCase(work string, c *GroupCase) {
 		sc.ClearEntryLogTolerateTime = 1 << 60
 		sc.ClearEntryLogTolerateSize = 1 << 20
 	}
+	if c.Forced == "second" || c.Forced == "stale" {
+		// two outages of the same member, each far shorter than the tolerate time, a long healthy period in between
+		setTolerate(time.Hour)
+	}
 	g := newGroup(work, fmt.Sprintf("%s-%d", c.Forced, time.Now().UnixNano()))
 	defer g.stopAll()
 	l := g.leader(15 * time.Second)
@@ -243,6 +302,16 @@ func runGroupCase(work string, c *GroupCase) {
 	h := (l + 2) % 3
 	// everybody has applied the first writes
 	waitFor(5*time.Second, func() bool { _, n := g.ms[v].st.snapshot(); return n >= len(acked) })
+	cur, extra := l, 0 // cur: the member that leads during the (second) outage
+	if c.Forced == "second" || c.Forced == "stale" {
+		if !g.firstOutage(c, l, v, h, acked) {
+			return
+		}
+		extra = 1
+		if c.Forced == "stale" {
+			cur = h
+		}
+	}
 	_, c.VictimLast = g.ms[v].store.GetFirstLast()
 	if c.Forced == "lag" {
 		// the member stays alive for meta (healthy branch of the truncation decision) but receives nothing
@@ -253,13 +322,13 @@ func runGroupCase(work string, c *GroupCase) {
 		g.kill(v)
 	}
 	// a long outage: more than one entry-log file is written meanwhile, with overwrites of the acknowledged keys
-	g.bulk(l, 0, c.Entries)
+	g.bulk(cur, 0, c.Entries)
 	for k := int64(1); k <= 5; k++ {
-		if err := g.write(l, k, 100+k, 20*time.Second); err == nil {
+		if err := g.write(cur, k, 100+k, 20*time.Second); err == nil {
 			acked[k] = 100 + k
 		}
 	}
-	total := 5 + c.Entries + 5
+	total := 5 + extra + c.Entries + 5
 	if !waitFor(60*time.Second, func() bool { _, n := g.ms[l].st.snapshot(); return n >= total }) {
 		c.Note = append(c.Note, "leader did not apply all entries in time")
 	}
@@ -269,10 +338,21 @@ func runGroupCase(work string, c *GroupCase) {
 		g.ms[i].node.SnapShotter.RaftFlushC <- true
 	}
 	time.Sleep(200 * time.Millisecond)
+	if c.Forced == "stale" {
+		// the node whose tolerance period was left running gets the leadership back during the second outage
+		if !g.transfer(h, l) {
+			c.Note = append(c.Note, "leadership transfer back failed")
+			c.Scenario = "not-run"
+			return
+		}
+	}
 	// the periodic truncation decision on the leader (first round starts the tolerate clock, second acts)
 	for r := 0; r < 3; r++ {
 		g.ms[l].node.VerifDeleteEntryLog()
 		time.Sleep(300 * time.Millisecond)
+		if c.Forced == "second" || c.Forced == "stale" {
+			g.ms[l].node.VerifAgeTolerateTimer(time.Minute) // one minute between the periodic rounds
+		}
 	}
 	time.Sleep(500 * time.Millisecond)
 	c.FirstL, _ = g.ms[l].store.GetFirstLast()
